@@ -140,6 +140,12 @@ impl Model {
         Model::with_var(&self.top.clone(), name, &mut |_, slot| *slot = v.clone()).is_some()
     }
 
+    pub fn adopt_or_declare(&mut self, name: &str, v: V) {
+        if !self.adopt_var(name, v.clone()) {
+            self.top.borrow_mut().vars.push((name.to_string(), Ty::Any, v));
+        }
+    }
+
     pub fn probe(&mut self, name: &'static str) {
         *self.probes.entry(name).or_insert(0) += 1;
     }
@@ -838,6 +844,11 @@ impl Model {
             },
             Some((Clause::Each(pat, e), rest)) => {
                 let it = self.eval(sc, e)?;
+                if let V::Dict(d) = &it {
+                    if d.entries.len() >= 2 {
+                        return unknown("for over a dict with several keys (hash order)");
+                    }
+                }
                 let items = self.iterate_lazy(&it, "for iteration")?;
                 let mut items = items;
                 loop {
@@ -855,6 +866,11 @@ impl Model {
             }
             Some((Clause::Pairs(pat, e), rest)) => {
                 let it = self.eval(sc, e)?;
+                if let V::Dict(d) = &it {
+                    if d.entries.len() >= 2 {
+                        return unknown("for over a dict with several keys (hash order)");
+                    }
+                }
                 let pairs = self.iterate_pairs(&it)?;
                 for (k, v) in pairs {
                     self.tick()?;
@@ -1624,6 +1640,10 @@ impl Model {
                 };
                 match &rhs {
                     V::List(xs) => self.assign_all(sc, ss, rt2.as_ref(), xs.clone()),
+                    V::Dict(d) if d.entries.len() >= 2 => {
+                        // the keys arrive in hash order: not predictable
+                        unknown("unpacking a dict with several keys (hash order)")
+                    }
                     V::Str(_) | V::Bytes(_) | V::Vector(_) | V::Dict(_) => {
                         let xs = self.iterate(&rhs, "unpack")?;
                         self.assign_all(sc, ss, rt2.as_ref(), xs)
